@@ -1050,7 +1050,10 @@ func prewriteMutation(db *leveldb.DB, batch *leveldb.Batch,
 			// The minCommitTS has been pushed forward.
 			minCommitTS = dec.lock.minCommitTS
 		}
-		_, err = checkConflictValue(iter, mutation, startTS, startTS, false, assertionLevel, false, false)
+		// The key is protected by this transaction's own pessimistic lock, taken at its for-update ts after a
+		// conflict check: commits between the start ts and the for-update ts are expected and must not be
+		// reported as write conflicts again (only the rollback-record and assertion checks remain).
+		_, err = checkConflictValue(iter, mutation, math.MaxUint64, startTS, false, assertionLevel, false, false)
 		if err != nil {
 			return err
 		}
